@@ -103,6 +103,14 @@ def elem_term(seq_key, i):
         parts = _split_top(seq_key[len("tuple("):-1], ",")
         if 0 <= i < len(parts):
             return parse_key(parts[i])
+    if seq_key.startswith("map(") and seq_key.endswith(")"):
+        # map(f, S)[i] (by unpacking) is f(S[i]) for a plain function name f
+        parts = _split_top(seq_key[len("map("):-1], ",")
+        if len(parts) == 2 and parts[0].isidentifier() and i >= 0:
+            inner = elem_term(parts[1], i).key()
+            if parts[0] == "int":
+                return Term.atom(f"int({inner})")
+            return Term.atom(f"{parts[0]}({inner})")
     return Term.atom(f"sub({seq_key},{i})")
 
 
